@@ -24,7 +24,11 @@ RULE = (
     'polynomial cases = degree x coefficient family x unit pair, each on 12 abscissae; composite cases = every '
     'ordered pair and selected (thorough: all) triples of parts x nesting x outer prefix x which part is un-prefixed, every one renamed with with_prefix to '
     'every prefix and compared with the directly constructed composite; fwhm() additionally called with dicts that hold other models parameters; refusal cases = model x prefix x every '
-    'single-name / single-unit corruption.  A case is non-trivial when the implementation returned at least one '
+    'single-name / single-unit corruption; every peak / polynomial / composite case re-evaluates its points in every ordering class and shape of x '
+    '(descending, both ends low, both ends high, rotated, centre-out, ends-in, interleaved, duplicated, all equal, 2-d both ways, 0-d, length 1, empty) '
+    'and compares point by point with the ascending evaluation; history cases = model x initial prefix x first operation, all operation sequences of '
+    'depth 3 (thorough 4) over {call, param_names, +, guess, fwhm, param_bounds, copy, deepcopy, with_prefix x 3}, state compared after every step with '
+    'ref ModelState and a freshly constructed model of the same prefix.  A case is non-trivial when the implementation returned at least one '
     'finite non-zero value that was compared with the reference (refusal cases: at least one corruption tried); '
     'distinct = distinct canonical case dictionaries'
 )
@@ -38,15 +42,15 @@ ASSUMPTIONS = [
 BOUND = {
     'quick': '3 amplitudes x 3 locs x 4 scales (1e-6..1e6) x (G, L, PV x 4 fractions) x 3 x-units x 2 y-units x 5 prefixes; '
     'polynomial degree 1..6 x 6 coefficient families; 25 pairs + 3 triples of parts x nesting x outer prefix x 3 part-prefix schemes, each renamed to every prefix; '
-    'fwhm() with foreign parameters in the dict for every prefix; refusal table',
+    'fwhm() with foreign parameters in the dict for every prefix; refusal table; 20+ x layouts per case; 5 models x 2 prefixes x 11^3 histories',
     'thorough': '6 amplitudes x 10 locs x 25 scales (every half decade 1e-6..1e6) x (G, L, PV x 9 fractions) x 4 x-units x 3 y-units x 12 prefixes; '
-    'polynomials additionally on 40 abscissae; all 25 pairs and all 125 triples of parts x nesting x outer prefix x 3 part-prefix schemes, renamed to 12 prefixes',
+    'polynomials additionally on 40 abscissae; all 25 pairs and all 125 triples of parts x nesting x outer prefix x 3 part-prefix schemes, renamed to 12 prefixes; 5 models x 2 prefixes x 11^4 histories',
 }
 REQUIRED_CLASSES = [
     'integral_ok', 'symmetric_ok', 'half_max_ok', 'prefix_identical', 'unit_ok', 'poly_ok', 'poly_cancelling',
     'composite2_ok', 'composite3_ok', 'refused_names', 'refused_units', 'guess_prefix_ok', 'bounds_prefix_ok',
     'shape_gaussian', 'shape_lorentzian', 'shape_pseudo_voigt', 'fraction_0', 'fraction_1', 'negative_amplitude',
-    'node_rounding_limited', 'fwhm_ignores_foreign_parameters', 'composite_renamed_ok', 'mixture_ok',
+    'node_rounding_limited', 'fwhm_ignores_foreign_parameters', 'composite_renamed_ok', 'mixture_ok', 'x_layout_independent', 'history_state_ok', 'history_use_then_rename',
 ]
 
 PREFIXES = ('', 'p_', 'peak_', 'a', 'ü ')
@@ -120,6 +124,8 @@ def cases(tier):
             out.append({'kind': 'refuse', 'model': name, 'prefix': prefix})
     for name in ('gaussian', 'lorentzian', 'pseudo_voigt', 'poly1', 'poly2', 'composite'):
         out.append({'kind': 'guess', 'model': name})
+    for name, prefix0, first in itertools.product(('gaussian', 'lorentzian', 'pseudo_voigt', 'poly2', 'composite'), ('', 'q_'), HIST_OPS):
+        out.append({'kind': 'history', 'model': name, 'prefix0': prefix0, 'first': first, 'depth': 4 if tier == 'thorough' else 3})
     return out
 
 
@@ -179,6 +185,57 @@ def _untouched(rec, site, x, params, snap, **sub):
     x0, p0 = snap
     if not sc.identical(x, x0) or params.keys() != p0.keys() or any(not sc.identical(params[k], p0[k]) for k in p0):
         rec.viol(site, 'argument_modified', 'the call changed its x or parameter arguments', **sub)
+
+
+def check_orderings(rec, site, model, params, pts, vals, xu, **sub):
+    """The value of a model at a point must not depend on the other points handed in with it, on the order
+    of x, or on the shape of x.  ``vals`` are the values already judged against the reference at ``pts``;
+    every ordering class / shape of the same points must reproduce them point by point."""
+    pts = np.asarray(pts, dtype=float)
+    vals = np.asarray(vals, dtype=float)
+    order = np.argsort(pts, kind='stable')
+    asc, vasc = pts[order], vals[order]
+    n = len(asc)
+    variants = []
+    for name, idx in ps.ordering_classes(n).items():
+        variants.append((name, sc.array(dims=['x'], values=asc[idx], unit=xu), vasc[idx]))
+    low = ps.ordering_classes(n)['low_ends']
+    m2 = (n // 2) * 2
+    variants.append(('two_dimensional', sc.array(dims=['row', 'x'], values=asc[low][:m2].reshape(2, m2 // 2), unit=xu), vasc[low][:m2].reshape(2, m2 // 2)))
+    variants.append(('two_dimensional_transposed', sc.array(dims=['x', 'col'], values=asc[low][:m2].reshape(m2 // 2, 2), unit=xu), vasc[low][:m2].reshape(m2 // 2, 2)))
+    for j in sorted({0, n // 2, n - 1, int(np.argmax(np.abs(vasc)))}):
+        variants.append((f'scalar_{j}', sc.scalar(float(asc[j]), unit=xu), vasc[j]))
+        variants.append((f'length_one_{j}', sc.array(dims=['x'], values=asc[j : j + 1], unit=xu), vasc[j : j + 1]))
+    variants.append(('empty', sc.array(dims=['x'], values=np.zeros(0), unit=xu), np.zeros(0)))
+    ok = True
+    for name, xv, want in variants:
+        rec.transitions += 1
+        rec.states += 1
+        rec.evals += 1
+        rec.validated += 1
+        try:
+            got = model(xv, **params)
+        except Exception as e:  # noqa: BLE001
+            ok = False
+            rec.viol(site, 'raises_for_x_layout', f'x as {name} ({xv.dims}, {xv.shape}): {type(e).__name__}: {e}', layout=name, **sub)
+            continue
+        if got.dims != xv.dims or got.shape != xv.shape:
+            ok = False
+            rec.viol(site, 'wrong_shape', f'x as {name} {xv.dims}{xv.shape}: result {got.dims}{got.shape}', layout=name, **sub)
+            continue
+        g = np.asarray(got.values, dtype=float)
+        w = np.asarray(want, dtype=float)
+        bad = ~((np.abs(g - w) <= 4 * EPS * np.abs(w)) | (np.isnan(g) & np.isnan(w)))
+        if np.any(bad):
+            ok = False
+            i = np.unravel_index(int(np.argmax(bad)), bad.shape) if bad.ndim else ()
+            rec.viol(
+                site, 'depends_on_other_points',
+                f'x as {name} ({len(np.ravel(g))} points, first {np.ravel(xv.values)[0]!r}, last {np.ravel(xv.values)[-1]!r}): value at x={np.asarray(xv.values)[i]!r} is {g[i]!r}, '
+                f'but {w[i]!r} when the same point is evaluated within the ascending grid', layout=name, **sub,
+            )
+    if ok:
+        rec.cls('x_layout_independent')
 
 
 def run_peak(case, rec):
@@ -277,6 +334,10 @@ def run_peak(case, rec):
     # peak value carries the sign of the amplitude and is the extremum of the sampled values
     if not (f_mu * A > 0 and abs(f_mu) >= np.max(np.abs(v)) * (1 - 4 * EPS)):
         rec.viol(site, 'peak_not_at_loc', f'f(loc)={f_mu!r} is not the extremum (max |f| sampled {np.max(np.abs(v))!r})')
+    # 3a. the same points in every ordering class / shape of x (a thinned grid: every 64th node keeps the far tails on
+    #     both sides, plus all symmetric and half-maximum abscissae next to loc) ------------------------------------
+    pick = np.unique(np.concatenate([[0, 1, 2, n - 3, n - 2, n - 1], np.arange(0, n, 64), np.arange(n, len(xs))]))  # the 3 outermost nodes per side are > 300 half widths out
+    check_orderings(rec, site, m0, p0, xs[pick], v[pick], xu)
     # 3b. the pseudo-Voigt is the documented mixture of the package's own (separately judged) Lorentzian and
     #     Gaussian of equal FWHM: fraction * L + (1 - fraction) * G ----------------------------------------
     if shape == 'pseudo_voigt':
@@ -400,6 +461,7 @@ def run_poly(case, rec):
         rec.cls('poly_ok')
     if np.any(v != 0):
         rec.nontrivial += 1
+    check_orderings(rec, site, m0, p0, xs, v, xu)
     identical = True
     for prefix in PREFIXES[1:]:
         for how in ('ctor', 'with_prefix'):
@@ -450,7 +512,8 @@ def _compose(models, nest, prefix):
 def run_composite(case, rec):
     site = 'peaks.model.CompositeModel'
     xu, yu = _unit('angstrom'), _unit('counts')
-    x = sc.array(dims=['x'], values=np.linspace(-3.0, 4.0, 57), unit=xu)
+    # the far points put every peak part more than 100 widths outside on either side
+    x = sc.array(dims=['x'], values=np.concatenate([[-200.0, -100.0], np.linspace(-3.0, 4.0, 57), [100.0, 200.0]]), unit=xu)
     names = case['parts']
     scheme = case.get('part_prefixes', 'all')
     part_prefix = [('' if (scheme == 'first_bare' and i == 0) or (scheme == 'last_bare' and i == len(names) - 1) else f'm{i}_') for i in range(len(names))]
@@ -497,6 +560,7 @@ def run_composite(case, rec):
         rec.cls(f'composite{len(built)}_ok')
     if np.any(v != 0):
         rec.nontrivial += 1
+    check_orderings(rec, site, comp, params, x.values, v, xu)
     y2 = via_add(x, **allp)
     rec.transitions += 1
     rec.evals += 1
@@ -741,6 +805,155 @@ def run_guess(case, rec):
     rec.nontrivial += 1
 
 
+# ---------------------------------------------------------------------------------------
+# histories: whatever has been done with a model object, it is what a freshly constructed model with its
+# current prefix is (ref/peakshape.ModelState: names = prefix + base names; only with_prefix changes the prefix)
+
+HIST_PREFIXES = ('', 'q_', 'peak_')
+HIST_OPS = ('call', 'names', 'add', 'guess', 'fwhm', 'bounds', 'copy', 'deepcopy') + tuple('with_prefix:' + q for q in HIST_PREFIXES)
+_HIST_X = None
+
+
+def _hist_x():
+    global _HIST_X
+    if _HIST_X is None:
+        _HIST_X = sc.array(dims=['x'], values=[-2.0, 0.5, 0.75, 1.0, 3.5], unit='angstrom')
+    return _HIST_X
+
+
+class _Fresh:
+    """Observations of freshly constructed models, one per prefix (the differential side of the oracle)."""
+
+    def __init__(self, name):
+        self.name = name
+        self.cache = {}
+
+    def get(self, prefix):
+        if prefix not in self.cache:
+            m, params = _build_named(self.name, prefix)
+            base = {k[len(prefix) :]: v for k, v in params.items()}
+            self.cache[prefix] = {'model': m, 'base': base, 'values': m(_hist_x(), **params), 'bounds': m.param_bounds, 'guess': m.guess(_guess_data()), 'names': m.param_names}
+        return self.cache[prefix]
+
+
+def _observe_state(rec, site, m, st, fresh, hist, *, with_guess=False, role='current'):
+    """Compare the observable state of ``m`` with the reference state ``st`` and with a fresh model of that prefix."""
+    sub = {'history': list(hist), 'object': role}
+    ok = True
+    rec.evals += 1
+    rec.validated += 1
+
+    def fail(kind, text):
+        nonlocal ok
+        ok = False
+        rec.viol(site, kind, f'after {" -> ".join(hist) or "construction"} ({role} object, prefix should be {st.prefix!r}): {text}', **sub)
+
+    fr = fresh.get(st.prefix)
+    if m.prefix != st.prefix:
+        fail('history_prefix', f'prefix is {m.prefix!r}')
+    names = m.param_names
+    if names != st.param_names or names != fr['names']:
+        fail('history_param_names', f'param_names {sorted(names)}, expected {sorted(st.param_names)}')
+    own = st.rename(fr['base'])
+    try:
+        y = m(_hist_x(), **own)
+    except Exception as e:  # noqa: BLE001
+        fail('history_refuses_own_parameters', f'called with {sorted(own)}: {type(e).__name__}: {e}')
+    else:
+        if not sc.identical(y, fr['values'], equal_nan=True):
+            fail('history_value_differs', 'values differ from those of a freshly constructed model with this prefix')
+    for alt in HIST_PREFIXES + ('zz_',):
+        if alt == st.prefix:
+            continue
+        other = {alt + b: v for b, v in fr['base'].items()}
+        try:
+            m(_hist_x(), **other)
+        except Exception:  # noqa: BLE001 - refusal
+            pass
+        else:
+            fail('history_accepts_foreign_names', f'accepted parameters named with prefix {alt!r}: {sorted(other)}')
+    if m.param_bounds != fr['bounds']:
+        fail('history_bounds', f'param_bounds {m.param_bounds}, fresh model {fr["bounds"]}')
+    if with_guess:
+        g = m.guess(_guess_data())
+        if set(g) != st.param_names or any(not sc.identical(g[k], fr['guess'][k]) for k in g if k in fr['guess']):
+            fail('history_guess', f'guess {sorted(g)} differs from the guess of a fresh model')
+    return ok
+
+
+def _run_history(rec, name, prefix0, ops, fresh):
+    import copy
+
+    m, _ = _build_named(name, prefix0)
+    site = f'peaks.model.{type(m).__name__}'
+    st = ps.ModelState(fresh.get('')['base'].keys(), prefix0)
+    hist = []
+    ok = _observe_state(rec, site, m, st, fresh, hist) if not ops else True
+    for op in ops:
+        hist.append(op)
+        rec.transitions += 1
+        fr = fresh.get(st.prefix)
+        own = st.rename(fr['base'])
+        try:
+            if op == 'call':
+                m(_hist_x(), **own)
+            elif op == 'names':
+                m.param_names.add('scribble')  # the returned set is the caller's
+            elif op == 'add':
+                other = M.PolynomialModel(degree=1, prefix='zz_')
+                comp = m + other
+                want = st.param_names | other.param_names
+                if comp.param_names != want:
+                    ok = False
+                    rec.viol(site, 'history_param_names', f'after {" -> ".join(hist)}: m + other has names {sorted(comp.param_names)}, expected {sorted(want)}', history=list(hist), object='sum')
+            elif op == 'guess':
+                m.guess(_guess_data())
+            elif op == 'fwhm':
+                try:
+                    m.fwhm(own)
+                except NotImplementedError:
+                    if name in PEAK_CLASSES:
+                        raise
+            elif op == 'bounds':
+                m.param_bounds['scribble'] = (0.0, 1.0)
+            elif op == 'copy':
+                m = copy.copy(m)
+            elif op == 'deepcopy':
+                m = copy.deepcopy(m)
+            elif op.startswith('with_prefix:'):
+                new = op.split(':', 1)[1]
+                old_m, old_st = m, st
+                m = m.with_prefix(new)
+                ok &= _observe_state(rec, site, old_m, old_st, fresh, hist, role='renamed-from')
+            else:
+                raise ValueError(op)
+        except Exception as e:  # noqa: BLE001
+            ok = False
+            rec.viol(site, 'history_operation_raises', f'after {" -> ".join(hist[:-1]) or "construction"}: {op} raised {type(e).__name__}: {e}', history=list(hist))
+            return False
+        st = st.after(*op.split(':', 1)) if op.startswith('with_prefix:') else st.after(op)
+        ok &= _observe_state(rec, site, m, st, fresh, hist, with_guess=(op == 'guess' or len(hist) == len(ops)))
+        rec.states += 1
+    return ok
+
+
+def run_history(case, rec):
+    name, prefix0, depth = case['model'], case['prefix0'], case['depth']
+    fresh = _Fresh(name)
+    all_ok = True
+    count = 0
+    for rest in itertools.product(HIST_OPS, repeat=depth - 1):
+        ops = (case['first'], *rest)
+        all_ok &= _run_history(rec, name, prefix0, ops, fresh)
+        count += 1
+        if any(o.startswith('with_prefix:') and o.split(':', 1)[1] != prefix0 for o in ops[1:]) and ops[0] in ('call', 'names', 'add', 'guess', 'bounds', 'fwhm'):
+            rec.cls('history_use_then_rename')
+    rec.observe(count)
+    rec.nontrivial += 1
+    if all_ok:
+        rec.cls('history_state_ok')
+
+
 def run_case(case, rec):
     kind = case['kind']
     if kind == 'peak':
@@ -753,5 +966,7 @@ def run_case(case, rec):
         run_refuse(case, rec)
     elif kind == 'guess':
         run_guess(case, rec)
+    elif kind == 'history':
+        run_history(case, rec)
     else:
         raise ValueError(kind)
